@@ -1651,20 +1651,18 @@ Qed.
 
 (* ======================================================================== *)
 (* Part I : the covered alphabet, final form                                 *)
-Definition prim_pre (p : prim) (s : tstate) : Prop :=
+Definition prim_pre1 (p : prim) (s : tstate) : Prop :=
   match p with
   | PStats f => stats_pre f s
   | _ => prim_pre0 p s
   end.
-Theorem step_preserves_InvC p s : InvC s -> prim_pre p s -> InvC (step n p s).
+Theorem step_preserves_InvC1 p s : InvC s -> prim_pre1 p s -> InvC (step n p s).
 Proof.
   intros HI Hp. destruct p; try (apply step_preserves_InvC0; assumption).
   cbn [step]. apply contract_stats_inv; assumption.
 Qed.
-Theorem run_preserves_InvC tr : forall s, InvC s -> pre_trace n prim_pre tr s -> InvC (run n tr s).
-Proof. intros s HI Hp. apply (run_good n InvC prim_pre step_preserves_InvC tr s HI Hp). Qed.
-Theorem trace_from_fresh_InvC tr : pre_trace n prim_pre tr (init_state n) -> InvC (run n tr (init_state n)).
-Proof. apply run_preserves_InvC, init_state_InvC. Qed.
+
+
 
 (* ======================================================================== *)
 (* Part J : updates that do not touch the cost fields (recipes, index orders, contractor cache) *)
@@ -2260,5 +2258,262 @@ Proof.
   apply reset_recipes_inv. apply (Mix_done sl sl' ind). apply HF; [rewrite Einfo4; exact C2| |exact HM].
   intros nd Hnd. apply nget_in_keys, Hnd.
 Qed.
+
+(* ======================================================================== *)
+(* Part M : recipe getters, sort / reset of contraction indices: no cost field is touched *)
+Lemma inv_g_legs s nd : InvC s -> good_node nd -> InvC (fst (g_legs n s nd)).
+Proof. intros HI HG. apply (step_preserves_InvC1 (PGet GLegs nd) s HI HG). Qed.
+Lemma inv_g_size s nd : InvC s -> good_node nd -> InvC (fst (g_size n s nd)).
+Proof. intros HI HG. apply (step_preserves_InvC1 (PGet GSize nd) s HI HG). Qed.
+Lemma inv_g_flops s nd : InvC s -> good_node nd -> flops_pre s nd -> InvC (fst (g_flops n s nd)).
+Proof. intros HI HG HP. apply (step_preserves_InvC1 (PGet GFlops nd) s HI (conj HG HP)). Qed.
+Lemma inv_upd_neutral nd f s : (forall i, cost_same i (f i)) -> InvC s -> InvC (upd_info nd f s).
+Proof. intros Hf HI. apply (InvC_upd_neutral nd f s Hf HI). Qed.
+Lemma inv_err s : InvC s -> InvC (set_err s).
+Proof. apply InvC_same, same_set_err. Qed.
+Lemma entry_good s p l r : InvC s -> nget p (children s) = Some (l, r) -> good_node p /\ good_node l /\ good_node r.
+Proof.
+  intros [HS _] E. split; [apply (child_key_good s p HS), nget_in_keys; congruence|].
+  destruct HS as ((_&Hc)&_). destruct (Hc p l r E) as (Gl & Gr & _). auto.
+Qed.
+Lemma cs_inds v i : cost_same i (w_inds v i). Proof. unfold cost_same. cbn. auto. Qed.
+Lemma cs_can_dot v i : cost_same i (w_can_dot v i). Proof. unfold cost_same. cbn. auto. Qed.
+Lemma cs_tdaxes v i : cost_same i (w_tdaxes v i). Proof. unfold cost_same. cbn. auto. Qed.
+Lemma cs_tdperm v i : cost_same i (w_tdperm v i). Proof. unfold cost_same. cbn. auto. Qed.
+Lemma cs_eq v i : cost_same i (w_eq v i). Proof. unfold cost_same. cbn. auto. Qed.
+
+Lemma get_inds_S f' s nd : get_inds n (S f') s nd =
+    match rd i_inds s nd with
+    | Some v => (s, v)
+    | None =>
+        if Nat.eqb (length nd) 1 || Nat.eqb (length nd) N then
+          let '(s1, l) := g_legs n s nd in
+          (upd_info nd (w_inds (Some (lkeys l))) s1, lkeys l)
+        else
+          let '(s1, lg) := g_legs n s nd in
+          match nget nd (children s1) with
+          | None => (set_err s1, [])
+          | Some (l, r) =>
+              let '(s2, li) := get_inds n f' s1 l in
+              let '(s3, ri) := get_inds n f' s2 r in
+              let v := unique (filter (fun j => lmem j lg) (li ++ ri)) in
+              (upd_info nd (w_inds (Some v)) s3, v)
+          end
+    end.
+Proof. reflexivity. Qed.
+Lemma inv_get_inds f : forall s nd, InvC s -> good_node nd -> InvC (fst (get_inds n f s nd)).
+Proof.
+  induction f as [|f IH]; intros s nd HI HG; [apply inv_err, HI|].
+  rewrite get_inds_S. destruct (rd i_inds s nd); [exact HI|].
+  pose proof (inv_g_legs s nd HI HG) as H1. destruct (g_legs n s nd) as [s1 lg]. cbn [fst] in H1.
+  destruct (Nat.eqb (length nd) 1 || Nat.eqb (length nd) N); cbn [fst].
+  - apply inv_upd_neutral; [intros; apply cs_inds|exact H1].
+  - destruct (nget nd (children s1)) as [[l r]|] eqn:E; [|apply inv_err, H1].
+    destruct (entry_good s1 nd l r H1 E) as (_ & Gl & Gr).
+    pose proof (IH s1 l H1 Gl) as H2. destruct (get_inds n f s1 l) as [s2 li]. cbn [fst] in H2.
+    pose proof (IH s2 r H2 Gr) as H3. destruct (get_inds n f s2 r) as [s3 ri]. cbn [fst] in H3. cbn [fst].
+    apply inv_upd_neutral; [intros; apply cs_inds|exact H3].
+Qed.
+Lemma inv_g_inds s nd : InvC s -> good_node nd -> InvC (fst (g_inds n s nd)).
+Proof. apply inv_get_inds. Qed.
+
+Lemma inv_g_can_dot s nd : InvC s -> good_node nd -> InvC (fst (g_can_dot n s nd)).
+Proof.
+  intros HI HG. unfold g_can_dot. destruct (rd i_can_dot s nd); [exact HI|].
+  destruct (nget nd (children s)) as [[l r]|] eqn:E; [|apply inv_err, HI].
+  destruct (entry_good s nd l r HI E) as (_ & Gl & Gr).
+  pose proof (inv_g_legs s nd HI HG) as H1. destruct (g_legs n s nd) as [s1 sp]. cbn [fst] in H1.
+  pose proof (inv_g_legs s1 l H1 Gl) as H2. destruct (g_legs n s1 l) as [s2 sl]. cbn [fst] in H2.
+  pose proof (inv_g_legs s2 r H2 Gr) as H3. destruct (g_legs n s2 r) as [s3 sr]. cbn [fst] in H3. cbn [fst].
+  apply inv_upd_neutral; [intros; apply cs_can_dot|exact H3].
+Qed.
+Lemma inv_g_tdaxes s nd : InvC s -> good_node nd -> InvC (fst (g_tdaxes n s nd)).
+Proof.
+  intros HI HG. unfold g_tdaxes. destruct (rd i_tdaxes s nd); [exact HI|].
+  destruct (nget nd (children s)) as [[l r]|] eqn:E; [|apply inv_err, HI].
+  destruct (entry_good s nd l r HI E) as (_ & Gl & Gr).
+  pose proof (inv_g_inds s l HI Gl) as H1. destruct (g_inds n s l) as [s1 li]. cbn [fst] in H1.
+  pose proof (inv_g_inds s1 r H1 Gr) as H2. destruct (g_inds n s1 r) as [s2 ri]. cbn [fst] in H2. cbn [fst].
+  apply inv_upd_neutral; [intros; apply cs_tdaxes|exact H2].
+Qed.
+Lemma inv_g_tdperm s nd : InvC s -> good_node nd -> InvC (fst (g_tdperm n s nd)).
+Proof.
+  intros HI HG. unfold g_tdperm. destruct (rd i_tdperm s nd); [exact HI|].
+  destruct (nget nd (children s)) as [[l r]|] eqn:E; [|apply inv_err, HI].
+  destruct (entry_good s nd l r HI E) as (_ & Gl & Gr).
+  pose proof (inv_g_inds s l HI Gl) as H1. destruct (g_inds n s l) as [s1 li]. cbn [fst] in H1.
+  pose proof (inv_g_inds s1 r H1 Gr) as H2. destruct (g_inds n s1 r) as [s2 ri]. cbn [fst] in H2.
+  pose proof (inv_g_inds s2 nd H2 HG) as H3. destruct (g_inds n s2 nd) as [s3 pi]. cbn [fst] in H3. cbn [fst].
+  apply inv_upd_neutral; [intros; apply cs_tdperm|exact H3].
+Qed.
+Lemma inv_g_eq s nd : InvC s -> good_node nd -> InvC (fst (g_eq n s nd)).
+Proof.
+  intros HI HG. unfold g_eq. destruct (rd i_eq s nd); [exact HI|].
+  destruct (nget nd (children s)) as [[l r]|] eqn:E; [|apply inv_err, HI].
+  destruct (entry_good s nd l r HI E) as (_ & Gl & Gr).
+  pose proof (inv_g_inds s l HI Gl) as H1. destruct (g_inds n s l) as [s1 li]. cbn [fst] in H1.
+  pose proof (inv_g_inds s1 r H1 Gr) as H2. destruct (g_inds n s1 r) as [s2 ri]. cbn [fst] in H2.
+  pose proof (inv_g_inds s2 nd H2 HG) as H3. destruct (g_inds n s2 nd) as [s3 pi]. cbn [fst] in H3. cbn [fst].
+  apply inv_upd_neutral; [intros; apply cs_eq|exact H3].
+Qed.
+
+(* sort_contraction_indices *)
+Lemma inv_sort_step moc mcc s p l r : InvC s -> good_node p -> good_node l -> good_node r ->
+  InvC (sort_step n moc mcc s (p, (l, r))).
+Proof.
+  intros HI Gp Gl Gr. unfold sort_step.
+  pose proof (inv_g_inds s p HI Gp) as H1. destruct (g_inds n s p) as [s1 pi]. cbn [fst] in H1.
+  pose proof (inv_g_inds s1 l H1 Gl) as H2. destruct (g_inds n s1 l) as [s2 li]. cbn [fst] in H2.
+  pose proof (inv_g_inds s2 r H2 Gr) as H3. destruct (g_inds n s2 r) as [s3 ri]. cbn [fst] in H3.
+  set (X := if moc && negb (Nat.eqb (length p) N) then _ else (s3, pi)).
+  assert (H4 : InvC (fst X)).
+  { unfold X. destruct (moc && negb (Nat.eqb (length p) N)); cbn [fst]; [apply inv_upd_neutral; [intros; apply cs_inds|exact H3]|exact H3]. }
+  destruct X as [s4 pi']. cbn [fst] in H4. destruct mcc; [|exact H4].
+  set (Y := if negb (Nat.eqb (length l) 1) then _ else (s4, li)).
+  assert (H5 : InvC (fst Y)).
+  { unfold Y. destruct (negb (Nat.eqb (length l) 1)); cbn [fst]; [|exact H4].
+    pose proof (inv_g_legs s4 l H4 Gl) as Ha. destruct (g_legs n s4 l) as [sa lg]. cbn [fst] in Ha. cbn [fst].
+    apply inv_upd_neutral; [intros; apply cs_inds|exact Ha]. }
+  destruct Y as [s5 li']. cbn [fst] in H5.
+  destruct (negb (Nat.eqb (length r) 1)); [|exact H5].
+  pose proof (inv_g_legs s5 r H5 Gr) as Ha. destruct (g_legs n s5 r) as [sa lg]. cbn [fst] in Ha.
+  apply inv_upd_neutral; [intros; apply cs_inds|exact Ha].
+Qed.
+Lemma inv_sort_fold moc mcc nodes : forall s, InvC s ->
+  (forall e, In e nodes -> good_node (fst e) /\ good_node (fst (snd e)) /\ good_node (snd (snd e))) ->
+  InvC (fold_left (sort_step n moc mcc) nodes s).
+Proof.
+  induction nodes as [|[p [l r]] nodes IH]; intros s HI Hg; cbn [fold_left]; [exact HI|].
+  destruct (Hg _ (or_introl eq_refl)) as (Gp & Gl & Gr). cbn [fst snd] in *.
+  apply IH; [apply inv_sort_step; assumption|intros e He; apply Hg; right; exact He].
+Qed.
+Lemma dfs_loop_entries ch : forall f queue done acc res, dfs_loop f ch queue done acc = Some res ->
+  (forall e, In e acc -> nget (fst e) ch = Some (snd e)) -> forall e, In e res -> nget (fst e) ch = Some (snd e).
+Proof.
+  induction f as [|f IH]; intros queue done acc res H Hacc; cbn [dfs_loop] in H; [discriminate|].
+  destruct queue as [|nd q].
+  - injection H as <-. intros e He. apply Hacc, in_rev, He.
+  - destruct (nget nd ch) as [[l r]|] eqn:E; [|discriminate].
+    destruct (is_ready done l && is_ready done r).
+    + apply (IH _ _ _ _ H). intros e [<-|He]; [exact E|apply Hacc, He].
+    + apply (IH _ _ _ _ H Hacc).
+Qed.
+Lemma descend_loop_entries ch : forall f queue acc res, descend_loop f ch queue acc = Some res ->
+  (forall e, In e acc -> nget (fst e) ch = Some (snd e)) -> forall e, In e res -> nget (fst e) ch = Some (snd e).
+Proof.
+  induction f as [|f IH]; intros queue acc res H Hacc; cbn [descend_loop] in H; [discriminate|].
+  destruct queue as [|p q].
+  - injection H as <-. intros e He. apply Hacc, in_rev, He.
+  - destruct (nget p ch) as [[l r]|] eqn:E; [|discriminate].
+    apply (IH _ _ _ H). intros e [<-|He]; [exact E|apply Hacc, He].
+Qed.
+Lemma traverse_entries s res : traverse n s = Some res -> forall e, In e res -> nget (fst e) (children s) = Some (snd e).
+Proof.
+  unfold traverse. destruct (Nat.eqb N 1); [intros [= <-] e []|].
+  intros H. apply (dfs_loop_entries _ _ _ _ _ _ H). intros e [].
+Qed.
+Lemma descend_entries s res : descend n s = Some res -> forall e, In e res -> nget (fst e) (children s) = Some (snd e).
+Proof. unfold descend. intros H. apply (descend_loop_entries _ _ _ _ _ H). intros e []. Qed.
+
+Lemma g_flops_children s nd : InvC s -> good_node nd -> flops_pre s nd -> children (fst (g_flops n s nd)) = children s.
+Proof. intros [HS _] HG HP. destruct (g_flops_inv s nd HS HG HP) as (_ & B & _). apply B. Qed.
+Lemma g_size_children s nd : InvC s -> good_node nd -> children (fst (g_size n s nd)) = children s.
+Proof.
+  intros [HS _] HG. unfold g_size. destruct (rd i_size s nd); [reflexivity|].
+  destruct (g_legs_inv s nd HS HG) as (_ & B & _). destruct (g_legs n s nd) as [s1 l]. cbn [fst] in *.
+  destruct (upd_info_fields nd (w_size (Some (size_of (szd n) (lkeys l)))) s1) as (F1&_). rewrite F1. apply B.
+Qed.
+Lemma keyed_fold (g : tstate -> node -> tstate * Z) :
+  (forall s nd, InvC s -> nget nd (children s) <> None -> InvC (fst (g s nd)) /\ children (fst (g s nd)) = children s) ->
+  forall (L : list (node * (node * node))) s acc, InvC s -> (forall c, In c L -> nget (fst c) (children s) <> None) ->
+  let r := fold_left (fun acc c => let '(sa, v) := g (fst acc) (fst c) in (sa, snd acc ++ [(v, c)])) L (s, acc) in
+  InvC (fst r) /\ children (fst r) = children s /\ map snd (snd r) = map snd acc ++ L.
+Proof.
+  intros Hg. induction L as [|c L IH]; intros s acc HI HL; cbn [fold_left].
+  - cbn. rewrite app_nil_r. auto.
+  - cbn [fst snd]. destruct (Hg s (fst c) HI (HL c (or_introl eq_refl))) as [A B].
+    destruct (g s (fst c)) as [sa v]. cbn [fst] in A, B.
+    destruct (IH sa (acc ++ [(v, c)]) A) as (A' & B' & C').
+    + intros c' Hc'. rewrite B. apply HL. right. exact Hc'.
+    + cbn zeta in A', B', C'. split; [exact A'|]. split; [congruence|]. rewrite C', map_app. cbn. rewrite <- app_assoc. reflexivity.
+Qed.
+
+Theorem sort_inds_inv pr moc mcc reset s : InvC s -> InvC (sort_inds n pr moc mcc reset s).
+Proof.
+  intros HI. unfold sort_inds.
+  set (s0 := if reset then reset_inds s else s).
+  assert (H0 : InvC s0) by (unfold s0; destruct reset; [apply reset_inds_inv, HI|exact HI]).
+  assert (Hentries : forall e, nget (fst e) (children s0) = Some (snd e) ->
+            good_node (fst e) /\ good_node (fst (snd e)) /\ good_node (snd (snd e))).
+  { intros [p [l r]] E. cbn [fst snd] in *. apply (entry_good s0 p l r H0 E). }
+  assert (Hin_ch : forall c, In c (children s0) -> nget (fst c) (children s0) = Some (snd c)).
+  { intros [p lr] Hc. apply In_nget; [apply H0|exact Hc]. }
+  assert (Hfin : forall s1 nodes, InvC s1 -> (forall e, In e nodes -> nget (fst e) (children s0) = Some (snd e)) ->
+            InvC (reset_recipes (fold_left (sort_step n moc mcc) nodes s1))).
+  { intros s1 nodes H1 Hn. apply reset_recipes_inv, inv_sort_fold; [exact H1|]. intros e He. apply Hentries, Hn, He. }
+  destruct pr.
+  - (* flops *)
+    destruct (keyed_fold (g_flops n)) with (L := children s0) (s := s0) (acc := @nil (Z * (node * (node * node)))) as (A & B & C).
+    + intros s' nd HI' Hch. assert (HG : good_node nd) by (apply (child_key_good s' nd (proj1 HI')), nget_in_keys, Hch).
+      split; [apply inv_g_flops; [exact HI'|exact HG|right; left; exact Hch]|apply g_flops_children; [exact HI'|exact HG|right; left; exact Hch]].
+    + exact H0.
+    + intros c Hc. rewrite (Hin_ch c Hc). discriminate.
+    + cbn zeta in A, B, C. destruct (fold_left _ (children s0) (s0, [])) as [sa keyed]. cbn [fst snd] in *. cbn [app map] in C.
+      apply Hfin; [exact A|]. intros e He. apply Hin_ch. rewrite <- C.
+      apply (Permutation_in _ (Permutation_map snd (sort_by_perm (fun a b : Z * (node * (node * node)) => (fst a <=? fst b)%Z) keyed))), He.
+  - (* size *)
+    destruct (keyed_fold (g_size n)) with (L := children s0) (s := s0) (acc := @nil (Z * (node * (node * node)))) as (A & B & C).
+    + intros s' nd HI' Hch. assert (HG : good_node nd) by (apply (child_key_good s' nd (proj1 HI')), nget_in_keys, Hch).
+      split; [apply inv_g_size; assumption|apply g_size_children; assumption].
+    + exact H0.
+    + intros c Hc. rewrite (Hin_ch c Hc). discriminate.
+    + cbn zeta in A, B, C. destruct (fold_left _ (children s0) (s0, [])) as [sa keyed]. cbn [fst snd] in *. cbn [app map] in C.
+      apply Hfin; [exact A|]. intros e He. apply Hin_ch. rewrite <- C.
+      apply (Permutation_in _ (Permutation_map snd (sort_by_perm (fun a b : Z * (node * (node * node)) => (fst a <=? fst b)%Z) keyed))), He.
+  - destruct (traverse n s0) as [nodes|] eqn:Et; [|apply inv_err, H0].
+    apply Hfin; [exact H0|]. apply (traverse_entries s0 nodes Et).
+  - destruct (descend n s0) as [nodes|] eqn:Et; [|apply inv_err, H0].
+    apply Hfin; [exact H0|]. apply (descend_entries s0 nodes Et).
+Qed.
+
+(* ======================================================================== *)
+(* Part N : the covered alphabet, final form: everything except restore_ind and the three
+   single-figure totals (total_flops / total_write / max_size when they have to recompute) *)
+Definition prim_pre (p : prim) (s : tstate) : Prop :=
+  match p with
+  | PGet GCanDot nd | PGet GInds nd | PGet GTdAxes nd | PGet GTdPerm nd | PGet GEq nd => good_node nd
+  | PResetInds | PResetRecipes | PSortInds _ _ _ _ => True
+  | PRemoveInd ind _ => rm_pre ind s
+  | PTotalFlops => trk_flops s = true
+  | PTotalWrite => trk_write s = true
+  | PMaxSize => trk_size s = true
+  | _ => prim_pre1 p s
+  end.
+Theorem step_preserves_InvC p s : InvC s -> prim_pre p s -> InvC (step n p s).
+Proof.
+  intros HI Hp. destruct p as [nd|nd|x y lg c z|g nd|f| | | | | |pr a b c|ind pj|ind| |k];
+    try (apply step_preserves_InvC1; assumption); cbn [step]; cbn [prim_pre] in Hp.
+  - destruct g; cbn [do_get].
+    + exact (step_preserves_InvC1 (PGet GLegs nd) s HI Hp).
+    + exact (step_preserves_InvC1 (PGet GInvolved nd) s HI Hp).
+    + exact (step_preserves_InvC1 (PGet GSize nd) s HI Hp).
+    + exact (step_preserves_InvC1 (PGet GFlops nd) s HI Hp).
+    + apply inv_g_can_dot; assumption.
+    + apply inv_g_inds; assumption.
+    + apply inv_g_tdaxes; assumption.
+    + apply inv_g_tdperm; assumption.
+    + apply inv_g_eq; assumption.
+  - unfold total_flops_op. rewrite Hp. exact HI.
+  - unfold total_write_op. rewrite Hp. exact HI.
+  - unfold max_size_op. destruct (Nat.eqb_spec N 1); [lia|]. rewrite Hp. exact HI.
+  - apply reset_inds_inv, HI.
+  - apply reset_recipes_inv, HI.
+  - apply sort_inds_inv, HI.
+  - apply remove_ind_inv; assumption.
+Qed.
+Theorem run_preserves_InvC tr : forall s, InvC s -> pre_trace n prim_pre tr s -> InvC (run n tr s).
+Proof. intros s HI Hp. apply (run_good n InvC prim_pre step_preserves_InvC tr s HI Hp). Qed.
+Theorem trace_from_fresh_InvC tr : pre_trace n prim_pre tr (init_state n) -> InvC (run n tr (init_state n)).
+Proof. apply run_preserves_InvC, init_state_InvC. Qed.
 
 End Inv.
